@@ -70,7 +70,7 @@ def replay_c02(cex, d):
         fx.update(cex)
         n = int(fx['n'])
         if n > 5000:
-            return {'reproduced': False, 'detail': 'too large'}
+            return {'reproduced': False, 'skip': True, 'detail': 'too large'}
         probs = []
         with rp.scratch() as tmp:
             p = tmp + '/a'
@@ -88,7 +88,7 @@ def replay_c02(cex, d):
             else:
                 k = int(fx['k'])
                 if k > 5000:
-                    return {'reproduced': False, 'detail': 'too large'}
+                    return {'reproduced': False, 'skip': True, 'detail': 'too large'}
                 darr.asarray(p, rp.values(np_, max(n, 1), (3,), 'int64', 'big'),
                              metadata={'old': 1} if fx['prev'] == 'withmeta' else None)
                 ref = rp.values(np_, k, tuple(fx['atom']), fx['numtype'], 'little')
